@@ -13,7 +13,7 @@ import ast
 import re
 
 from .. import cfg as cfgmod
-from ..loader import AnalysisError, unparse, call_name, attr_chain
+from ..loader import AnalysisError, unparse, call_name, attr_chain, stmt_of
 from ..dataflow import target_names, mutations_in
 from ..solver_model import Sweep, solver_function, PARTITIONS
 
@@ -346,6 +346,112 @@ def run(prog, check):
                          'two solvers in one process, one of them appends to the list')
     if 'EconomicObject.ID' not in global_writes:
         raise AnalysisError('the process-wide object counter (EconomicObject.ID) was not found')
+    # the object counter only ever counts up: objects recognise themselves (and each other) by it, so two live objects
+    # must never share a number
+    for f_, n_ in global_writes['EconomicObject.ID']:
+        inc = isinstance(n_, ast.AugAssign) and isinstance(n_.op, ast.Add) and isinstance(n_.value, ast.Constant) and n_.value.value == 1
+        own = f_.cls is not None and f_.cls.name == 'EconomicObject'
+        check.ob('C17.R5', '%s::counter-write(%s)' % (f_.key, unparse(n_)[:40]), inc and own, '%s:%d' % (f_.module.rel, n_.lineno),
+                 'the counter is incremented by the base constructor' if (inc and own) else
+                 'the process-wide object counter is re-set: objects of models that are alive at the same time get equal IDs '
+                 '(a market then skips a household as "itself")', 'a second Model created while the first is still being populated')
+    # ---- R6: memo / done-marker data members of the solver are not carried from one parse or solve to the next ----
+    from ..cfg import atomic_facts as _af
+    init_m = solver_cls.methods.get('__init__')
+    containers = set()
+    for n in (ast.walk(init_m.node) if init_m else []):
+        if isinstance(n, ast.Assign) and isinstance(n.targets[0], ast.Attribute) and isinstance(n.targets[0].value, ast.Name) \
+                and n.targets[0].value.id == 'self' and (isinstance(n.value, (ast.Dict, ast.Set)) or (
+                    isinstance(n.value, ast.Call) and call_name(n.value) in ('dict', 'set'))):
+            containers.add(n.targets[0].attr)
+    parse_sources = {'Parser', 'EquationString'} | set(sources)
+    n6 = 0
+    for f_raw in solver_cls.methods.values():
+        if f_raw.name == '__init__':
+            continue
+        fl = flatten(prog, f_raw)
+        aliases = {}
+        for n in ast.walk(fl.node):
+            if isinstance(n, ast.Assign) and len(n.targets) == 1 and isinstance(n.targets[0], ast.Name) and \
+                    isinstance(n.value, ast.Attribute) and isinstance(n.value.value, ast.Name) and n.value.value.id == 'self' \
+                    and n.value.attr in containers:
+                aliases[n.targets[0].id] = n.value.attr
+
+        def member_of(e):
+            if isinstance(e, ast.Attribute) and isinstance(e.value, ast.Name) and e.value.id == 'self' and e.attr in containers:
+                return e.attr
+            if isinstance(e, ast.Name) and e.id in aliases:
+                return aliases[e.id]
+            if isinstance(e, ast.Call) and isinstance(e.func, ast.Attribute) and e.func.attr == 'keys':
+                return member_of(e.func.value)
+            return None
+        fills, consults = {}, {}
+        for n in ast.walk(fl.node):
+            if isinstance(n, ast.Assign):
+                for t in n.targets:
+                    if isinstance(t, ast.Subscript) and member_of(t.value):
+                        fills.setdefault(member_of(t.value), []).append(n)
+            if isinstance(n, ast.Compare) and len(n.ops) == 1 and isinstance(n.ops[0], (ast.In, ast.NotIn)) and member_of(n.comparators[0]):
+                consults.setdefault(member_of(n.comparators[0]), []).append(n)
+            if isinstance(n, ast.Try) and any('KeyError' in unparse(h.type) for h in n.handlers if h.type is not None):
+                for x in ast.walk(ast.Module(body=n.body, type_ignores=[])):
+                    if isinstance(x, ast.Subscript) and isinstance(x.ctx, ast.Load) and member_of(x.value):
+                        consults.setdefault(member_of(x.value), []).append(x)
+        memos = sorted(set(fills) & set(consults))
+        if not memos:
+            continue
+        g_ = cfgmod.build(fl)
+        for A in memos:
+            n6 += 1
+            check.saw(f_raw)
+            resets = [nd for nd in g_.stmt_nodes() if nd.kind == 'stmt' and isinstance(nd.ast, ast.Assign) and any(
+                isinstance(t, ast.Attribute) and isinstance(t.value, ast.Name) and t.value.id == 'self' and t.attr == A for t in nd.ast.targets)]
+            first_use = [g_.node_of(stmt_of(x)) for x in consults[A]]
+            reset_first = bool(resets) and all(any(g_.dominates(r, u) for r in resets) for u in first_use if u is not None)
+            # M1: re-set whenever the parsed block is replaced
+            stale_parse = []
+            for fo in solver_cls.methods.values():
+                if fo.name == '__init__':
+                    continue
+                assigns_src = any(isinstance(n, ast.Assign) and any(isinstance(t, ast.Attribute) and isinstance(t.value, ast.Name) and
+                                                                   t.value.id == 'self' and t.attr in parse_sources for t in n.targets)
+                                  for n in ast.walk(fo.node))
+                assigns_A = any(isinstance(n, ast.Assign) and any(isinstance(t, ast.Attribute) and isinstance(t.value, ast.Name) and
+                                                                 t.value.id == 'self' and t.attr == A for t in n.targets)
+                                for n in ast.walk(fo.node))
+                if assigns_src and not assigns_A:
+                    stale_parse.append(fo.name)
+            ok1 = reset_first or not stale_parse
+            check.ob('C17.R6', '%s::memo-reset-on-new-block(%s)' % (f_raw.key, A), ok1, f_raw.where,
+                     'the memo self.%s is re-set whenever the parsed block changes (or at the start of its user)' % A if ok1 else
+                     'self.%s is filled and consulted here but survives %s: entries computed for the previous block are used for the new one'
+                     % (A, stale_parse), 'ParseString(A), solve, ParseString(B) with a shared variable name, solve')
+            # M2: a membership test on the memo that lets other state be skipped needs a fresh memo per run
+            skips_other = False
+            for c in consults[A]:
+                if not isinstance(c, ast.Compare):
+                    continue
+                tnode = None
+                for nd in g_.nodes:
+                    if nd.kind == 'test' and any(x is c for x in ast.walk(nd.ast)):
+                        tnode = nd
+                if tnode is None:
+                    continue
+                for nd in g_.stmt_nodes():
+                    if nd.kind != 'stmt' or not isinstance(nd.ast, ast.Assign):
+                        continue
+                    writes_other = any(isinstance(t, ast.Subscript) and not member_of(t.value) == A for t in nd.ast.targets)
+                    if not writes_other:
+                        continue
+                    for test, outcome in g_.conditions_at(nd):
+                        if test is tnode.ast or any(x is c for x in ast.walk(test)):
+                            skips_other = True
+            ok2 = (not skips_other) or reset_first
+            check.ob('C17.R6', '%s::done-marker-fresh-per-run(%s)' % (f_raw.key, A), ok2, f_raw.where,
+                     'membership in self.%s does not decide whether other state is computed (or it starts empty on every run)' % A if ok2 else
+                     'membership in self.%s decides whether results are computed, and the container is not emptied at the start of the run: '
+                     'a second run skips what the first one marked as done' % A, 'a second SolveEquation() on the same solver')
+
     nid = 0
     for f in prog.all_functions():
         for x in ast.walk(f.node):
